@@ -323,6 +323,14 @@ Definition safe_ret (p : prog) : bool :=
   let A := analyze p in valid p A && no_cache_returned A.
 Definition safe (p : prog) : bool := safe_args p && safe_ret p.
 
+(* methods called on an existing object (parameter 0 = self, the object seen as one region):
+   no other argument is written, the result is not held by a module cache and is not (part
+   of) the object itself *)
+Definition ret_not_arg (i : nat) (A : abs) : bool := negb (mem (LArg i) (a_R A)).
+Definition safe_method (p : prog) : bool :=
+  let A := analyze p in
+  valid p A && arg_writes_within [0] A && no_cache_returned A && ret_not_arg 0 A.
+
 (* ---- summaries of analysed functions (for call sites inside the library) *)
 
 Fixpoint positions (f : nat -> bool) (n i : nat) : list nat :=
